@@ -494,6 +494,9 @@ func TestReplay(t *testing.T) {
 			r.Fail(t, v.key, v.msg, c)
 			return
 		}
+		if v.note != "" && i == 0 {
+			fmt.Println("replay: note (not a violation):", v.note)
+		}
 	}
 	fmt.Println("replay: oracle holds (30 runs)")
 }
